@@ -116,7 +116,8 @@ CbData(S, e) ==
 Ran(S, u) == \/ u.u \in DOMAIN S.ins
              \/ (u.graph /\ u.parent # "" /\ \E v \in Units(S.c) : v.parent = u.u /\ v.u \in DOMAIN S.ins)
 Failed(S, u) == IF u.parent = "" THEN S.ret.err
-                ELSE IF u.graph THEN \E v \in Units(S.c) : v.parent = u.u /\ v.u \in DOMAIN S.outs /\ S.outs[v.u].fail
+                ELSE IF u.graph THEN \/ \E v \in Units(S.c) : v.parent = u.u /\ v.u \in DOMAIN S.outs /\ S.outs[v.u].fail
+                                     \/ (u.u \in DOMAIN S.outs /\ S.outs[u.u].fail)     \* the condition of its START branch failed
                 ELSE u.u \in DOMAIN S.outs /\ S.outs[u.u].fail
 DataOK(S, d) ==
   IF ~HasUnitNamed(S.c, d.name) THEN FALSE
